@@ -10,6 +10,7 @@ inductive EvOp
   | unmarshal (bs : Bytes)
   | verify (k : Nat)
   | know (k : Nat) (bs : Bytes)
+  | mutate (c : Claims)
 
 def parseKeys? (s : String) : Option (List (Nat × String)) :=
   allSome ((s.splitOn ",").map fun e =>
@@ -28,6 +29,7 @@ def keyTable (keys : List (Nat × String)) : KeyTable := fun k a =>
 def parseEvOp? (s : String) : Option EvOp :=
   match s.splitOn ":" with
   | ["setclaims", d] => (parseClaims? (d.splitOn "&")).map .setClaims
+  | ["mutate", d] => (parseClaims? (d.splitOn "&")).map .mutate
   | [kind, k, a, mode, sg] =>
     if kind != "sign" && kind != "vsign" then none else do
       let k ← k.toNat?
@@ -64,6 +66,7 @@ def runEv (kt : KeyTable) : World → Ev → List EvOp → List String → Bool 
       let (e', r) := evUnmarshal urlNormDriver [] e bs
       let (s, o) := match r with | .ok _ => ("ok", false) | .err => ("err", false) | .ood => ("ood", true)
       runEv kt w e' rest (s :: acc) (ood || o)
+    | .mutate c => runEv kt w { e with claims := some c } rest ("ok" :: acc) ood
     | .know k bs => runEv kt (w.know k bs) e rest ("-" :: acc) ood
     | .verify k => runEv kt w e rest (okErrU (evVerify kt w e k) :: acc) ood
 
